@@ -626,3 +626,18 @@ Proof.
     destruct (T.cri_loop _ _ _) as [r|e|e]; cbn [bind]; [destruct (negb _); discriminate|discriminate|].
     intros X. apply H. exact X.
 Qed.
+
+(* dns.rdata.from_text (TokM.rdata_from_text: tokenizer, generic-syntax branch, per-type text parser,
+   end-of-line check, all inside ExceptionWrapper(SyntaxError)) for an ARBITRARY per-type parser and
+   arbitrary wire codec of the generic branch: a value or a SyntaxError-family error *)
+Theorem rdata_from_text_family {V} (ft : T.tstate -> res (V * T.tstate)) fw tw text :
+  match T.rdata_from_text ft fw tw text with
+  | Ok _ => True
+  | Lib e => T.in_syntax_family e = true
+  | Internal _ => False
+  end.
+Proof.
+  unfold T.rdata_from_text, T.wrap_syntax.
+  match goal with |- match (match ?r with _ => _ end) with _ => _ end => destruct r as [a|e|e] end; auto.
+  destruct (T.in_syntax_family e) eqn:E; [exact E|reflexivity].
+Qed.
